@@ -58,6 +58,7 @@ class Engine:
         self.uf_mode = False
         self.records = {}
         self.allow_hash = False
+        self.path_status = {}
 
     def fresh_name(self, base):
         self.nfresh += 1
@@ -208,10 +209,34 @@ class Engine:
 
     def decide(self, name, cond, info=None):
         t0 = time.time()
-        o = self._decide(name, cond, info)
+        if info and 'requires' in info:
+            o = self._decide_chain(name, cond, info)
+        else:
+            o = self._decide(name, cond, info)
+        self.path_status[name] = o.status
         if _DEBUG:
             print('    [decide %s -> %s (%s) %.1fs]' % (name, o.status, o.how, time.time() - t0), flush=True)
         return o
+
+    def _decide_chain(self, name, cond, info):
+        """lemma chain (DESIGN 2.1): `cond` is an abstract formula over fresh names whose hypotheses are lemmas that
+        were each discharged by the solver on this very path (info['requires'] lists their obligation names); it is
+        decided standalone.  If a lemma is missing the chain is inconclusive."""
+        missing = [r for r in info['requires'] if self.path_status.get(r) != 'ok']
+        if missing:
+            return Outcome(name, 'unknown', None, info, list(self.decisions), 'lemma not discharged: %s' % missing[:3])
+        s = z3.Solver()
+        s.set('timeout', int(info.get('timeout_ms') or self.timeout_ms))
+        s.add(z3.Not(tob(cond)))
+        t = time.time()
+        r = str(s.check())
+        self.tq += time.time() - t
+        self.nq += 1
+        if r == 'unsat':
+            return Outcome(name, 'ok', None, info, list(self.decisions), 'chain', sexpr=_short(tob(cond)))
+        if r == 'sat':
+            return Outcome(name, 'unknown', None, info, list(self.decisions), 'abstract chain query is sat (lemmas too weak)')
+        return Outcome(name, 'unknown', None, info, list(self.decisions), s.reason_unknown())
 
     def _decide(self, name, cond, info=None):
         """info may carry 'hyp' (extra hypotheses for this obligation only, e.g. a concrete instantiation for a
@@ -223,6 +248,11 @@ class Engine:
         if z3.is_true(zs):
             return Outcome(name, 'ok', None, info, list(self.decisions), 'trivial', trivial=True)
         neg = z3.Not(z)
+        if hyp and name.startswith('twin:'):
+            # a twin stated at a point instantiation only applies on paths that contain that point
+            r0, _ = self.check(*hyp, with_axioms=False, timeout_ms=to)
+            if r0 == 'unsat':
+                return Outcome(name, 'skip', None, info, list(self.decisions), 'instance not on this path')
         # assumption slicing: without stub axioms first
         if self.axioms:
             r, s = self.check(neg, *hyp, with_axioms=False, timeout_ms=to)
@@ -512,7 +542,7 @@ class Sym(numbers.Number):
         if r is NotImplemented:
             return r
         r.meta = _meta_mul(self, o)
-        return r
+        return _canon(r)
 
     def __rmul__(self, o):
         if isinstance(o, _np.ndarray):
@@ -525,7 +555,7 @@ class Sym(numbers.Number):
         if r is NotImplemented:
             return r
         r.meta = _meta_mul(self, o)
-        return r
+        return _canon(r)
 
     def __truediv__(self, o):
         if isinstance(o, _np.ndarray):
@@ -547,10 +577,10 @@ class Sym(numbers.Number):
                 return Sym(z3.RealVal(str(Fraction(va) / Fraction(vb))))
             r = Sym(a * z3.RealVal(str(1 / Fraction(vb))))
             r.meta = _meta_mul(self, 1 / Fraction(vb))
-            return r
+            return _canon(r)
         r = Sym(a / b)
         r.meta = _meta_div(self, o)
-        return r
+        return _canon(r)
 
     def __rtruediv__(self, o):
         if isinstance(o, _np.ndarray):
@@ -565,7 +595,7 @@ class Sym(numbers.Number):
             return 0.0
         r = Sym(a / b)
         r.meta = _meta_div(o, self)
-        return r
+        return _canon(r)
 
     def __floordiv__(self, o):
         oz = toz(o)
@@ -804,6 +834,17 @@ class Sym(numbers.Number):
         raise Unsupported('pickling a symbolic value')
 
 
+def _canon(r):
+    """a value known to be a monomial in the positive log-variables gets its canonical term (so that
+    algebraically equal monomials are syntactically equal: s*p/(s*q) cancels)"""
+    if r.meta and 'mono' in r.meta and _CANCEL[0]:
+        from . import contracts
+        c = contracts.mono_sym(r.meta['mono'])
+        meta = dict(r.meta)
+        return Sym(c.z, meta)
+    return r
+
+
 def _floordiv_neg(a, b):
     # python floor division for ints with b<0 (z3 div rounds so that remainder >= 0)
     q = a / b
@@ -848,11 +889,17 @@ def _meta_add(a, b, sa, sb_):
     return {'lin': (const, {k: v for k, v in d.items() if v != 0})}
 
 
+_CANCEL = [False]
+
+
 def _mono_mul(m1, m2, k2=1):
     coef = m1[0] * (m2[0] if k2 == 1 else 1 / m2[0])
     d = dict(m1[1])
     for n, p in m2[1].items():
-        d[n] = d.get(n, 0) + k2 * p
+        q = d.get(n, 0)
+        d[n] = q + k2 * p
+        if abs(d[n]) < abs(q) + abs(p):
+            _CANCEL[0] = True      # a variable cancelled (partly): the canonical term is simpler than the structural one
     return (coef, {n: p for n, p in d.items() if p != 0})
 
 
@@ -869,6 +916,7 @@ def _meta_of(x):
 def _meta_mul(a, b):
     ma, mb = _meta_of(a), _meta_of(b)
     out = {}
+    _CANCEL[0] = False
     # linear form times concrete
     cb = None if isinstance(b, Sym) else _concrete_fraction(b)
     ca = None if isinstance(a, Sym) else _concrete_fraction(a)
@@ -900,6 +948,7 @@ def _meta_mul(a, b):
 def _meta_div(a, b):
     ma, mb = _meta_of(a), _meta_of(b)
     out = {}
+    _CANCEL[0] = False
     if 'mono' in ma and 'mono' in mb:
         out['mono'] = _mono_mul(ma['mono'], mb['mono'], -1)
     elif 'fact' in ma and 'mono' in mb:
